@@ -351,8 +351,8 @@ def image(buf):
     return bytes(buf.to_bytearray(0, buf.capacity)) if buf.capacity else b""
 
 
-def new_case(r, refs, max_depth=3):
-    g = T.G(r, refs=refs)
+def new_case(r, refs, max_depth=3, ref_bias=False):
+    g = T.G(r, refs=refs, ref_bias=ref_bias)
     while True:
         t = g.ty(r.choice([1, 2, 2, 3][: max_depth + 1]), compound_only=True)
         if t[0] in ("ref", "uref") or T.names_clash(t):
